@@ -94,22 +94,20 @@ theorem foldBinOp_value (t : PrecTable) (sp : Spacing) (orc : Oracle) (hneg : Ne
     · rename_i hop
       split
       · rfl
-      · split
+      · rename_i v hv
+        split
         · rfl
-        · rename_i v hv
-          split
+        · split
           · rfl
-          · split
+          · rename_i nn hnn
+            split
             · rfl
-            · rename_i nn hnn
-              split
+            · split
               · rfl
-              · split
-                · rfl
-                · rw [newNode_evalLit orc hneg v nn hnn]
-                  simp only [evalLit, operandVal_evalLit orc l lv hl, operandVal_evalLit orc r rv hr, evalBinAll]
-                  simp only [Bool.or_eq_true, not_or] at hop
-                  simp [hop, hv]
+              · rw [newNode_evalLit orc hneg v nn hnn]
+                simp only [evalLit, operandVal_evalLit orc l lv hl, operandVal_evalLit orc r rv hr, evalBinAll]
+                simp only [Bool.or_eq_true, not_or] at hop
+                simp [hop, hv]
   · rfl
 
 /-- T07 core: folding preserves the value of every closed literal arithmetic expression, nested to
@@ -167,10 +165,8 @@ theorem foldBinOp_shorter (t : PrecTable) (sp : Spacing) (orc : Oracle) (l : Exp
             · left; rfl
             · split
               · left; rfl
-              · split
-                · left; rfl
-                · rename_i hlen _
-                  right; omega
+              · rename_i hlen _
+                right; omega
   · left; rfl
 
 /-- When a step changes the node: both operands are literals, the operator is neither `/` nor `**`,
@@ -188,21 +184,19 @@ theorem foldBinOp_changed (t : PrecTable) (sp : Spacing) (orc : Oracle) (l : Exp
     · rename_i hop
       split at h
       · exact absurd rfl h
-      · split at h
+      · rename_i v hv
+        split at h
         · exact absurd rfl h
-        · rename_i v hv
+        · rename_i hnan
           split at h
           · exact absurd rfl h
-          · rename_i hnan
+          · rename_i nn hnn
             split at h
             · exact absurd rfl h
-            · rename_i nn hnn
-              split at h
+            · split at h
               · exact absurd rfl h
-              · split at h
-                · exact absurd rfl h
-                · simp only [Bool.or_eq_true, not_or, beq_iff_eq] at hop
-                  refine ⟨lv, rv, v, ?_, ?_, hop.1, hop.2, ?_, by simpa using hnan, ?_⟩ <;> simp_all
+              · simp only [Bool.or_eq_true, not_or, beq_iff_eq] at hop
+                refine ⟨lv, rv, v, ?_, ?_, hop.1, hop.2, ?_, by simpa using hnan, ?_⟩ <;> simp_all
   · exact absurd rfl h
 
 end PMV.Fold
